@@ -81,7 +81,9 @@ fn gen_form(rng: &mut Rng, literals_with_parens: bool, defined: &mut Vec<String>
         // a string literal that contains a line break: it can only be typed on two lines
         let a = *rng.pick(&["top", "first (line", "a;b"]);
         let b = *rng.pick(&["bottom", "second) line", ""]);
-        return (format!("(display \"{}\n{}\")", a, b), "newline-in-string");
+        // sometimes with an empty or blank line in the middle of the literal
+        let mid = *rng.pick(&["", "", "\n", "  \n", "\n\n"]);
+        return (format!("(display \"{}\n{}{}\")", a, mid, b), "newline-in-string");
     }
     let c = rng.upto(if literals_with_parens { 20 } else { 12 });
     match c {
@@ -131,6 +133,12 @@ fn gen_form(rng: &mut Rng, literals_with_parens: bool, defined: &mut Vec<String>
         16 => ("(display \"q\\\"(\")".to_string(), "paren-in-string"),
         17 => ("(cons #\\; '(after))".to_string(), "semicolon-in-character"),
         18 => ("(quote |a(b;c|)".to_string(), "paren-in-identifier"),
+        19 if rng.chance(1, 2) => {
+            // a string that ends in an escaped backslash
+            let name = format!("v{}", defined.len());
+            defined.push(name.clone());
+            (format!("(define {} \"C:\\\\\")", name), "backslash-at-string-end")
+        }
         _ => ("(list #\\\" 1 \")\")".to_string(), "paren-in-string"),
     }
 }
@@ -305,7 +313,7 @@ fn execute_f(case: Value) -> RunResult {
     }
     let case_has_literals = subs.iter().any(|s| {
         let k = s["kinds"].to_string();
-        k.contains("paren-in") || k.contains("semicolon-in")
+        k.contains("paren-in") || k.contains("semicolon-in") || k.contains("backslash-at")
     });
     let lit_suffix = if case_has_literals { "/literal-containing-paren-or-semicolon" } else { "" };
     let (banner, farewell) = match banner_and_farewell(hash_seed) {
